@@ -238,3 +238,14 @@ Definition fixpolb {T} {NT : Num T} (m : mdp T) (pi : nat -> nat -> T) (V : list
 Definition occfixb {T} {NT : Num T} (m : mdp T) (pi : nat -> nat -> T) (Oc : list T) : bool :=
   forallbn (nS m) (fun z =>
     neqb (untab Oc z) (nadd (init m z) (nmul (gamma m) (sumf (nS m) (fun s => nmul (untab Oc s) (Ppi m pi s z)))))).
+
+(* certificate that the transient part of the chain is left in finite expected time, off the -inf set:
+   tau >= 1 + P_t tau, tau >= 0 (supplied by the harness' exact solve, checked here).  With it the
+   finite reported values are within tolV * tau of the limit of the k-step expected total reward
+   (theory/PolicyEvalLimit.v). *)
+Definition c02_tau {T} {NT : Num T} (m : mdp T) (pi : nat -> nat -> T) (tau : list T) : bool :=
+  let A := accM m pi in
+  forallbn (nS m) (fun x =>
+    if neginf m pi A x then true
+    else nleb (nadd n1 (sumf (nS m) (fun z => nmul (Pt m pi A x z) (untab tau z)))) (untab tau x)
+         && nleb n0 (untab tau x)).
